@@ -1,6 +1,9 @@
 package main
 
 import (
+	"encoding/json"
+	"encoding/hex"
+	"crypto/sha256"
 	"fmt"
 	"sort"
 	"strings"
@@ -472,6 +475,20 @@ func (x *searcher) checkOnce(s, n *State, o buildOpts, res *buildResult) {
 			}
 		case "UpToDate", "Succeeded", "Failed":
 			done[e.Label]++
+		}
+	}
+	// what a target is handed for a dependency is the dependency's actual outcome: the stamp
+	// recorded for the generated source is the sum of the file as its generator left it (a source
+	// that sums its file before its generator ran hands over, and records, the previous one)
+	if res.RunErr == nil && o.Then == "" && evaluating["source://gen:g.txt"] > 0 {
+		var rec struct {
+			Stamp string `json:"stamp"`
+		}
+		if txt, ok := res.After[".dawn/build/sources/gen%2Fg.txt"]; ok && json.Unmarshal([]byte(txt), &rec) == nil {
+			sum := sha256.Sum256([]byte(res.After["gen/g.txt"]))
+			if want := hex.EncodeToString(sum[:]); rec.Stamp != want {
+				bad("outcome-of-generated-source-is-not-its-file", fmt.Sprintf("the generated source gen/g.txt was evaluated in this build and is recorded with stamp %.12s..., the file its generator left has %.12s...", rec.Stamp, want))
+			}
 		}
 	}
 	x.r.Outcome("executed_sets", "once:"+setString(res.Executed))
